@@ -11,7 +11,7 @@ CHECKS = {
          "Decides three structural clauses: R-LALR (exhaustive exploration of the LALR block parser's configuration space: every sequence of real line kinds is accepted, no error action, stack bounded), R-DISPATCH (every producible token type has a non-escape branch in all 7 writers, by EDPE), R-NOEXIT (no exit/abort reachable from the API). Does not decide that the rendering contains all text.",
          "§3 C02"),
  "C04": ("other", "enum-dispatch partial evaluation (EDPE) of every writer over t->type: token-type x writer matrix, sibling agreement",
-         "Decides two structural clauses: no writer takes the unknown-token escape for a producible type (text dropped), and LaTeX/OpenDocument emit or descend wherever HTML does. Does not decide word order, escaping or byte equality.",
+         "Decides structural clauses: no writer takes the unknown-token escape for a producible type (text dropped), LaTeX/OpenDocument emit or descend wherever HTML does, document-derived strings reach HTML/XML output only through the escape helpers (R-SINK), reserved-lexeme tokens are never printed raw, and each format's character escaper covers its reserved set. Does not decide word order, verbatim reproduction or cross-format equality.",
          "§3 C04"),
  "C06": ("other", "must-pass-through / dominator checks on the wrapper functions' CFGs, EDPE over `format`, type-level pointer-to-pointer check",
          "Decides that every string/DString variant is a thin wrapper (delegates on all paths, sets language, forwards arguments, frees with the right ownership flag), that convert_to_data and convert_to_file build the same package per format, and the CLI's -t table. Byte equality follows because the engine function is shared; it is not itself checked.",
@@ -25,6 +25,9 @@ CHECKS = {
  "C07": ("other", "call-graph SCC classification: depth-guard recognition (dominators), monotone-parameter recursion, block-only descent by EDPE, leaf self-calls from the pairing table; stack budget from compile-only -fstack-usage",
          "Decides the stack clause structurally: every recursive cycle reachable from the API is bounded by a guard against a constant (or confined to block-level nesting / flat input / a visited set) and bound x frame sizes fits a 2 MiB budget; plus R-CONSTTIME (append primitives are loop-free), a necessary condition of the linear-cost clause. Asymptotic cost itself is NOT decided (data-dependent loops).",
          "§3 C07"),
+ "C08": ("other", "taint-style def-use classification (reaching definitions) of every non-literal output sink in the XML/HTML writer units; EDPE sibling comparison of raw token printing; EDPE escaper tables over all 256 bytes",
+         "Decides the escaping discipline: document-derived strings (urls, titles, attribute keys/values, metadata values, fence info strings, clean_string results) reach html/odf/opml/itmz/epub output only through the format's escape helper; token types that some dispatcher renders as an entity are never printed as raw token text by another; the character escapers map & < > \" to entities; the OPML/ITMZ escaper and the unescaper are inverse. Whole-output well-formedness for every input (control characters, data-dependent nesting) is not decided.",
+         "§3 C08"),
  "C10": ("other", "format-literal census of every id=/href=# anchor site with reaching-definition classification of the printed number; provenance check of heading anchors (one label function); field-write census of the numbering counters",
          "Decides: within each anchor family (fn, fnref, cn, cnref, gn, gnref) every id and every reference print the number derived the same way (plain vs EXT_RANDOM_FOOT-transformed), each referenced family has an id site, heading ids / TOC / EPUB nav / LaTeX labels / ODF bookmarks all come from label_from_header, the auto-link target does too (known finding), and the note lists iterate the stacks that assign the numbers. That every reference resolves for every document (label text equality) is not decided.",
          "§3 C10"),
